@@ -1023,6 +1023,10 @@ def c04d(chk):
     chk.ob("C04.d", "Array::sum/fold(iter_axis(axis), zeros(remaining shape))", ok and same_axis and init_ok and recv_ok and every and ret_ok, f.loc(),
            "every view of the summed axis (%s) is accumulated into a zero array shaped like the remaining axes, which is then returned (same axis=%s, init=%s, receiver=%s, every view=%s, returned=%s)"
            % (o.describe() if o else "iteration over iter_axis not found", same_axis, init_ok, recv_ok, every, ret_ok))
+    # ... on every path: the sum has one result (a shortcut that returns the array unchanged when the axis has one entry keeps the axis, and
+    # every caller relies on the result having one axis fewer)
+    nres = len(f.defs.get(0, []))
+    chk.ob("C04.d", "Array::sum/one-result", nres == 1, f.loc(), "the function's result is defined once, by the accumulation (definitions of the return value: %d)" % nres)
     ok = False
     inner = None
     why = "element-wise update not found"
@@ -1108,9 +1112,10 @@ def c04e(chk):
     if len(m) == 1:
         tb = an.try_branch_of(f, m[0][0])
         # the axes argument: collect::<Vec<Axis>>(into_iter(list).map(Axis))
-        sl, info = f.slice_locals(m[0][1]["args"][1])
+        # (including calls that modify the vector in place through a separate `&mut` borrow: axes.sort_unstable(); axes.dedup();)
+        sl, info = f.slice_locals(m[0][1]["args"][1], mut_calls=True)
         names = sorted({(x[1]["callee"].get("path") or "").split("::")[-1] for x in info["calls"]})
-        bad = [n for n in names if n in ("sort", "sort_unstable", "dedup", "rev", "reverse", "retain", "truncate", "skip", "take")]
+        bad = [n for n in names if n in ("sort", "sort_unstable", "sort_by", "sort_by_key", "sort_unstable_by", "sort_unstable_by_key", "dedup", "dedup_by", "dedup_by_key", "rev", "reverse", "retain", "retain_mut", "truncate", "skip", "take", "drain", "pop", "remove", "swap_remove", "clear", "split_off")]
         axis_map = any(a["k"] == "const" and a.get("fn") == "sfs_core::array::shape::Axis" for x in info["calls"] for a in x[1]["args"])
         # the list reaches marginalize element for element: every container on the way is a Vec or a slice (a set or map in between
         # silently drops duplicates and re-orders, hiding what the library must reject)
@@ -1145,7 +1150,8 @@ def c04e(chk):
            "the remove list reaches marginalize as given: duplicates and out-of-range axes are left for the library to reject (in-place modifications on the way: %s)" % (sorted(set(mutated)) or "none"))
     import rules_view
     kc = rules_view.keep_complement(chk, f)
-    chk.ob("C04.e", "view/--marginalize-keep->complement", kc["complement"] and kc["range"], kc["where"], "keep is converted to the complement over 0..dimensions() (details: C13.d)", nontrivial=False)
+    chk.ob("C04.e", "view/--marginalize-keep->complement", kc["complement"] and kc["range"] and kc["unconditional"], kc["where"],
+           "keep is converted to the complement over 0..dimensions() whenever it is given (details: C13.d; %s)" % kc["why_uncond"], nontrivial=False)
 
 
 # ====================================================================================
@@ -1162,6 +1168,10 @@ def check_C05(chk):
     c05a(chk)
     c05c(chk)
     c05d(chk)
+    # shared clauses: the fill value reaches the reader of the output as it is (the text writer prints the stored value: C07.c) and an output
+    # file holds nothing but this output (C07.g), else folding the folded file differs from folding once
+    import rules_io as RIO_
+    chk.borrow(lambda: (RIO_.c07c(chk), RIO_.c07g(chk)), "C05.e", 5)
     for r, n in (("C05.a", 6), ("C05.c", 5), ("C05.d", 5)):
         chk.floor(r, n)
 
